@@ -113,6 +113,12 @@ def bounded_roundtrip(tier, seed):
            ([1, 2], 'ai', [1, 2]), (['a'], 'as', ['a']), ({'k': 1}, 'a{si}', {'k': 1}), ({'k': 'v'}, 'a{ss}', {'k': 'v'}), (((1, 'x'), 2), '((is)i)', [[1, 'x'], 2]),
            (PerInstance('ay', [1, 2]), 'ay', [1, 2]), (PerInstance('(yy)', [1, 2]), '(yy)', [1, 2]), (PerInstance('an', [1, 2]), 'an', [1, 2])]
     from txdbus import marshal as _m
+    # members of different DBus types - also when one Python type is a subclass of the other (bool / int, ObjectPath / str) -
+    # make an array of variants, each carrying its own type
+    V_ = W.Variant
+    seq += [([1, True], 'av', [V_('i', 1), V_('b', True)]), ([True, 1], 'av', [V_('b', True), V_('i', 1)]),
+            (['a', _m.ObjectPath('/x')], 'av', [V_('s', 'a'), V_('o', '/x')]), ([1, _m.UInt64(2**40)], 'av', [V_('i', 1), V_('t', 2**40)]),
+            ({'k0': 1, 'k1': True}, 'a{sv}', {'k0': V_('i', 1), 'k1': V_('b', True)}), ([1, 2], 'ai', [1, 2]), ([True, False], 'ab', [True, False])]
     for pyv, vsig, ref in seq + seq[::-1]:
         for le in (True, False):
             n += 1
@@ -262,7 +268,11 @@ def bounded_plain_roundtrip(tier, seed):
     n = 0
     special = [('a{sv}i', [{}, 42]), ('axs', [[], 'after']), ('a(ii)u', [[], 7]), ('ady', [[], 9]), ('(a{ss}s)', [[{}, 'tail']]),
                ('aax', [[[], [1]]]), ('v', [W.Variant('ax', [])]), ('yv', [3, W.Variant('(yx)', [1, 2])]), ('a{sv}', [{'a': W.Variant('d', float('-inf'))}]),
-               ('(nqiuxt)', [[-2**15, 2**16 - 1, -2**31, 2**32 - 1, -2**63, 2**64 - 1]]), ('s', ['\U0001F600 é']), ('ay', [[]]), ('a(ay)', [[[[1, 2]], [[]]]])]
+               ('(nqiuxt)', [[-2**15, 2**16 - 1, -2**31, 2**32 - 1, -2**63, 2**64 - 1]]), ('s', ['\U0001F600 é']), ('ay', [[]]), ('a(ay)', [[[[1, 2]], [[]]]]),
+               # nesting to the specification's limits and a 255-byte signature
+               ('a' * 32 + 'y', [_nest_list(32, [7])]), ('a' * 32 + 'x', [_nest_list(32, [])]), ('(' * 32 + 'yx' + ')' * 32, [_nest_struct(32, [1, -2])]),
+               ('a' * 16 + '(' * 16 + 'n' + ')' * 16, [_nest_list(16, [_nest_struct(16, [-3])])]),
+               ('y' + 'x' * 254, [1] + [2**40] * 254), ('a{s' + 'a' * 30 + 'i}', [{'k': _nest_list(30, [5])}])]
     for sig, vals in special:
         for off in range(8):
             for le in (True, False):
